@@ -79,6 +79,7 @@ type Run struct {
 	knownHit   map[string]int64
 	caps       []string
 	notes      []string
+	scratch    []string
 }
 
 const maxReplays = 12
@@ -238,6 +239,7 @@ type replayFile struct {
 
 // Finish writes evidence and replay files, prints the verdict lines and returns the exit code.
 func (r *Run) Finish() int {
+	r.Cleanup()
 	r.mu.Lock()
 	defer r.mu.Unlock()
 	wall := time.Since(r.start).Seconds()
@@ -399,3 +401,41 @@ func (r *Run) Merge(l *Local) {
 // Q quotes a byte string for keys and messages.
 func Q(b []byte) string  { return strconv.QuoteToASCII(string(b)) }
 func QS(s string) string { return strconv.QuoteToASCII(s) }
+
+// Scratch creates a scratch directory (tmpfs when available) removed by Finish.
+func (r *Run) Scratch() string {
+	base := os.TempDir()
+	if st, err := os.Stat("/dev/shm"); err == nil && st.IsDir() {
+		if f, err := os.CreateTemp("/dev/shm", "verif-probe"); err == nil {
+			f.Close()
+			os.Remove(f.Name())
+			base = "/dev/shm"
+		}
+	}
+	d, err := os.MkdirTemp(base, "verif-"+r.ID+"-")
+	if err != nil {
+		fmt.Fprintln(os.Stderr, "cannot create scratch directory:", err)
+		os.Exit(2)
+	}
+	r.mu.Lock()
+	r.scratch = append(r.scratch, d)
+	r.mu.Unlock()
+	return d
+}
+
+// Cleanup removes scratch directories.
+func (r *Run) Cleanup() {
+	r.mu.Lock()
+	ds := r.scratch
+	r.scratch = nil
+	r.mu.Unlock()
+	for _, d := range ds {
+		filepath.WalkDir(d, func(p string, de os.DirEntry, err error) error {
+			if err == nil && de.IsDir() {
+				os.Chmod(p, 0o755)
+			}
+			return nil
+		})
+		os.RemoveAll(d)
+	}
+}
